@@ -28,6 +28,19 @@ def jobs_for(tier, seed):
             for v, c in enumerate(D.concretisations(rng, i["cands"], i["ballots"], nvar)):
                 jobs.append({"kind": "election", "key": "e%d" % key, "variant": v, "cfg": i["cfg"], "cands": i["cands"], "ballots": c["ballots"],
                              "names": c["names"], "cand_order": c["cand_order"], "seed": rng.randrange(10**6), "abstract": i["ballots"]})
+    # tallies less than one double-ulp apart (weights above 2^53, rationals 1e-17 apart): beyond TLC's range, so only part (a) -- all
+    # presentations and hash seeds agree -- speaks about them
+    from . import c04
+    from ..elections import base_cfg
+    for i in c04.wide_weight_inputs(rng, 40 if q else 600):
+        nc = len(i["cands"])
+        rule = rng.choice(["Plurality", "Borda", "SNTV", "IRV", "STV", "TopTwo"])
+        cfg = base_cfg(rule=rule, m=1 if rule in ("IRV", "TopTwo") else rng.randint(1, nc - 1), tb=rng.choice(["none", "borda", "first_place"]),
+                       vec=[[nc - k, 1] for k in range(nc)] if rule == "Borda" else [])
+        key += 1
+        for v, c in enumerate(D.concretisations(rng, i["cands"], i["ballots"], nvar)):
+            jobs.append({"kind": "election", "key": "e%d" % key, "variant": v, "cfg": cfg, "cands": i["cands"], "ballots": c["ballots"],
+                         "names": c["names"], "cand_order": c["cand_order"], "seed": rng.randrange(10**6), "abstract": i["ballots"], "wide": True})
     for n in range(150 if q else 2000):
         nc = rng.randint(3, 5)
         cs = D.ABC[:nc]
@@ -130,6 +143,7 @@ def run(tier, seed, replay=None):
                 seen.add(k)
                 t = dict(r["trace"])
                 t["_inp"] = {"jobs": jobmap[r["key"].split(":")[0]]}
+                t["_wide"] = any(j.get("wide") for j in t["_inp"]["jobs"])
                 t["_info"] = {"explored": False}
                 out.append(t)
         return out
